@@ -244,7 +244,9 @@ class Context(object):
             try:
                 with open(filename, 'rb') as fh:
                     d = pickle.load(fh)
-                    if rtype not in list(d.keys()):
+                    if not isinstance(d, dict):
+                        raise TypeError('not a dictionary of renderers')
+                    if not isinstance(d.get(rtype), dict):
                         d[rtype] = {}
             except:
                 os.remove(filename)
